@@ -713,32 +713,34 @@ func (c *Client) processPubrel(id packet.ID) error {
 
 	// get packet from store
 	publish, ok := pkt.(*packet.Publish)
-	if !ok {
-		return nil // ignore a wrongly sent Pubrel packet
-	}
+	if ok {
+		// call callback
+		if c.Callback != nil && !c.earlyCallback {
+			err = c.Callback(&publish.Message, nil)
+			if err != nil {
+				return c.die(err, true)
+			}
+		}
 
-	// call callback
-	if c.Callback != nil && !c.earlyCallback {
-		err = c.Callback(&publish.Message, nil)
+		// remove packet from store before acknowledging it, so that a lost
+		// Pubcomp packet cannot cause the message to be delivered again
+		err = c.Session.DeletePacket(session.Incoming, id)
 		if err != nil {
 			return c.die(err, true)
 		}
+	} else if atomic.LoadUint32(&c.state) != clientConnected {
+		return nil // ignore a wrongly sent Pubrel packet
 	}
 
 	// prepare pubcomp packet
 	pubcomp := packet.NewPubcomp()
-	pubcomp.ID = publish.ID
+	pubcomp.ID = id
 
-	// acknowledge Publish packet
+	// acknowledge Pubrel packet, also if the message has already been
+	// released, as the broker otherwise never completes the flow
 	err = c.send(pubcomp, true)
 	if err != nil {
 		return c.die(err, false)
-	}
-
-	// remove packet from store
-	err = c.Session.DeletePacket(session.Incoming, id)
-	if err != nil {
-		return c.die(err, true)
 	}
 
 	return nil
